@@ -188,7 +188,7 @@ def display_table(ctx, impl_path):
 
 def r09_1(ctx, run, rule='R09.1'):
     f = ctx.facts
-    rows = value_rows(ctx, ('jsonpath::parser::',))
+    rows = value_rows(ctx, ('jsonpath::parser::', 'jsonpath::path::'))
     run.floor(rule, 'value(CONST, token) rows in the JSONPath grammar', len(rows), 20)
 
     def variant_of(k):
@@ -216,6 +216,9 @@ def r09_1(ctx, run, rule='R09.1'):
                 continue
             toks = parse_tab.get((enum, name, ()), set())
             ok = any((t[0] in ('tag', 'char') and t[1] == text) for t in toks)
+            if not toks:
+                run.undecided(rule, impl, f'token[{enum}::{name}]', f'{name} is printed as {text!r}; no grammar row producing {name} was found where this rule looks (moved or written differently?): not decided')
+                continue
             (run.proved if ok else run.violation)(rule, impl, f'token[{enum}::{name}]', f'prints {text!r}; the grammar maps {text!r} back to {name}' if ok else
                                                    f'{name} is printed as {text!r}, but the grammar maps {sorted(str(t[1]) for t in toks)} to {name}: a printed path does not parse back to the same operator')
     # every parser row must denote the variant the printer would print for it or a documented alias
@@ -338,7 +341,19 @@ def whole_input(ctx, run, rule, fn, err_variant):
     n = 0
     bad = 0
     unread = 0
+    unread_ret = False
+    comb = 0
     for p in ps:
+        if p.end[0] == 'return' and p.ret is not None and not agg_variant(p.ret):
+            # the result built by combinators: `rest.is_empty().then_some(v).ok_or(err)` / `.then(|| v).ok_or(..)`
+            r_ = deref_all(p.ret)
+            if is_call(r_, 'Option::ok_or', 'Option::ok_or_else') and r_[2] and is_call(deref_all(r_[2][0]), 'bool::then_some', 'bool::then'):
+                c0 = deref_all(deref_all(r_[2][0])[2][0])
+                if is_call(c0, 'slice::is_empty') and any(s_[0] == 'downcast' and s_[2] in ('Ok', 'Continue') for s_ in subterms(c0)):
+                    comb += 1
+                    continue
+            if not is_call(r_, 'FromResidual::from_residual'):
+                unread_ret = True
         if p.end[0] != 'return' or not (agg_variant(p.ret) and p.ret[1][2] == 'Ok'):
             continue
         n += 1
@@ -366,7 +381,11 @@ def whole_input(ctx, run, rule, fn, err_variant):
                 unread += 1
             else:
                 bad += 1
-    if n and not bad and unread:
+    if not n and comb and not unread_ret:
+        run.proved(rule, fn, 'whole-input', f'the result is Ok only through rest.is_empty().then_some(..).ok_or(..) ({comb} path(s))', f'{b.file}:{b.line}')
+    elif not n:
+        run.undecided(rule, fn, 'whole-input', 'no return path builds Ok(..) directly in this function (the result comes from combinators or a helper this rule does not read): not decided', f'{b.file}:{b.line}')
+    elif n and not bad and unread:
         run.undecided(rule, fn, 'whole-input', f'{unread} Ok return(s) follow a test of the unparsed rest that this rule does not read as "rest is empty": not decided', f'{b.file}:{b.line}')
     elif n and not bad:
         run.proved(rule, fn, 'whole-input', f'every Ok return ({n}) is taken only when the unparsed rest is empty', f'{b.file}:{b.line}')
